@@ -65,7 +65,8 @@ StartOps == <<EmitOp("START", "init"), <<"hbstart", "", "init">>>>          \* F
 
 \* the emitter calls made by lifecycle step l, evaluated in the state BEFORE the step
 Ops(l) ==
-  CASE l[1] = "init" ->
+  CASE l[1] = "init" /\ l[2] = "exit_pre" -> ExitOps      \* exit() before Filter.init(): no START was emitted, none will be
+    [] l[1] = "init" ->
          StartOps \o (IF l[2] = "exit_post" /\ ~(s.cfg.ea \in {"secs", "ms"} /\ D("exit_after_time_module")) THEN ExitOps ELSE <<>>)
     [] l[1] \in {"setup", "shutdown"} -> IF l[2] = "exit" THEN ExitOps ELSE <<>>
     [] l[1] = "iter" ->
@@ -92,7 +93,9 @@ Ops(l) ==
 LInit == Init /\ lin = [hb |-> "off", hbStop |-> FALSE, term |-> FALSE, ticks |-> 0] /\ hist = <<>> /\ todo = <<>>
 
 \* one emission through OpenFilterLineage._emit_event; design: terminal events are idempotent
-Suppressed(kind) == kind \in Terminal /\ lin.term /\ ~LD("not_idempotent")
+Started == \E i \in 1..Len(hist) : hist[i][1] = "START"
+\* ... and a run that never emitted its START has nothing to end ("terminal_without_start": the code before its repair)
+Suppressed(kind) == kind \in Terminal /\ ((lin.term /\ ~LD("not_idempotent")) \/ (~Started /\ ~LD("terminal_without_start")))
 Emission(kind, site) ==
   IF Suppressed(kind)
     THEN hist' = hist /\ lin' = lin
@@ -151,7 +154,7 @@ C18_Prefix ==
   /\ NTerm(hist) <= 1
   /\ \A i \in 1..Len(hist) : hist[i][1] \in Terminal => i = Len(hist)
 \* ... and complete when the run is over (a run whose constructor failed never engaged the emitter: no history at all)
-Engaged == \E i \in 1..Len(s.calls) : s.calls[i] = "init"
+Engaged == (\E i \in 1..Len(s.calls) : s.calls[i] = "init") /\ ~(\E i \in 1..Len(path) : path[i] = <<"init", "exit_pre">>)
 C18_Complete == Final => IF Engaged THEN NTerm(hist) = 1 /\ hist[1][1] = "START" ELSE hist = <<>>
 \* "COMPLETE iff the filter ended cleanly, ABORT if it ended by an error or was interrupted" - for runs with one reason of
 \* ending: error = an Exception / KeyboardInterrupt left a stage, or an error exit of a neighbour was obeyed
